@@ -1,1 +1,212 @@
-// harnesses for may_queue/src/spmc.rs (child module, cfg(kani) only)
+// C04: harnesses over the real may_queue/src/spmc.rs (child module, cfg(kani) only).
+//
+// Real code: Queue::{new, push, pop, local_pop, is_empty}, BlockNode::{new, set, get,
+// mark_slots_read}, BlockPtr::{pack, unpack}.  Under cfg(kani) blocks have 4 slots instead of 32
+// (retargeted constant, same code): block boundary, the bit-63 "switching" head, the over-claim ->
+// head restore path and block freeing are reached with 5-6 tasks.
+// Stubbed: std atomics of the queue (schedule point + effect); Backoff::spin and the 10 ms sleep
+// poll (= somebody else must make progress: pruned when that party is the pre-empted one).
+use super::*;
+use crate::verif_shim::{np, sa};
+
+static mut Q: *const Queue<u8> = std::ptr::null();
+static mut MAXD: usize = 1;
+static mut STEAL_LEFT: usize = 0; // whole stealer pops that may still be nested
+static mut OWNER_LEFT: usize = 0; // owner operations that may be nested into a stealer (push, push, local_pop)
+static mut PUSHED: u8 = 0;
+static mut GOT: [u8; 8] = [0; 8]; // how many times task i was obtained by anybody
+static mut OWNER_LAST: u8 = 0; // last task the owner popped itself (must increase)
+static mut TOTAL_GOT: u8 = 0;
+static mut IN_OWNER: bool = false;
+static mut OWNER_POPS_LAST: bool = true; // the last nested owner operation is a local_pop
+
+fn record(v: u8) {
+    unsafe {
+        assert!(v >= 1 && v <= PUSHED, "C04: a task was obtained that was never pushed (uninitialised slot?)");
+        GOT[v as usize] += 1;
+        assert!(GOT[v as usize] == 1, "C04: a task was obtained twice");
+        TOTAL_GOT += 1;
+    }
+}
+fn owner_push() {
+    unsafe {
+        PUSHED += 1;
+        IN_OWNER = true;
+        (*Q).push(PUSHED);
+        IN_OWNER = false;
+    }
+}
+fn owner_pop() {
+    unsafe {
+        IN_OWNER = true;
+        let r = (*Q).local_pop();
+        IN_OWNER = false;
+        if let Some(v) = r {
+            record(v);
+            assert!(v > OWNER_LAST, "C04: the owner's own pops are not in push order");
+            OWNER_LAST = v;
+        }
+    }
+}
+fn stealer_pop() {
+    unsafe {
+        if let Some(v) = (*Q).pop() {
+            record(v);
+        }
+    }
+}
+fn owner_next() {
+    unsafe {
+        OWNER_LEFT -= 1;
+        if OWNER_LEFT == 0 && OWNER_POPS_LAST {
+            owner_pop();
+        } else {
+            owner_push();
+        }
+    }
+}
+fn hook() {
+    unsafe {
+        if np::DEPTH < MAXD {
+            if STEAL_LEFT > 0 && kani::any() {
+                STEAL_LEFT -= 1;
+                np::nested(stealer_pop);
+            }
+            if np::DEPTH < MAXD && OWNER_LEFT > 0 && !IN_OWNER && kani::any() {
+                np::nested(owner_next);
+            }
+        }
+    }
+}
+fn backoff_prune(_b: &Backoff) {
+    kani::assume(false);
+}
+fn sleep_prune(_d: std::time::Duration) {
+    kani::assume(false);
+}
+
+macro_rules! np_harness {
+    ($(#[$m:meta])* fn $name:ident() $body:block) => {
+        #[kani::proof]
+        $(#[$m])*
+        #[kani::stub(core::sync::atomic::Atomic::<*mut T>::load, sa::ptr_load)]
+        #[kani::stub(core::sync::atomic::Atomic::<*mut T>::store, sa::ptr_store)]
+        #[kani::stub(core::sync::atomic::Atomic::<*mut T>::compare_exchange_weak, sa::ptr_cas)]
+        #[kani::stub(core::sync::atomic::Atomic::<usize>::load, sa::usize_load)]
+        #[kani::stub(core::sync::atomic::Atomic::<usize>::store, sa::usize_store)]
+        #[kani::stub(core::sync::atomic::Atomic::<usize>::fetch_sub, sa::usize_fetch_sub)]
+        #[kani::stub(crossbeam_utils::Backoff::spin, backoff_prune)]
+        #[kani::stub(crossbeam_utils::Backoff::snooze, backoff_prune)]
+        #[kani::stub(std::thread::sleep, sleep_prune)]
+        fn $name() $body
+    };
+}
+
+/// quiescence: the owner drains what is left; every task pushed was obtained exactly once
+fn drain_and_check() {
+    unsafe {
+        np::HOOK = None;
+        let mut i = 0;
+        while i < 5 && TOTAL_GOT < PUSHED {
+            owner_pop();
+            i += 1;
+        }
+        assert!(TOTAL_GOT == PUSHED, "C04: a pushed task was never obtained by anybody (lost)");
+        assert!((*Q).is_empty());
+    }
+}
+
+/// sequential owner-only history across a block boundary and a block free
+#[kani::proof]
+#[kani::unwind(10)]
+fn c04_spmc_seq_owner() {
+    let q: Queue<u8> = Queue::new();
+    unsafe { Q = &q };
+    let mut i = 0;
+    while i < 7 {
+        if kani::any() {
+            owner_push();
+        } else {
+            owner_pop();
+        }
+        i += 1;
+    }
+    unsafe {
+        kani::cover!(PUSHED >= 5 && TOTAL_GOT >= 4, "owner crossed a block boundary and freed a block");
+        kani::cover!(PUSHED == 3 && TOTAL_GOT == 3, "queue emptied inside a block");
+    }
+    drain_and_check();
+    std::mem::forget(q);
+}
+
+/// owner root: push x3, local_pop, push x2 (crosses the 4-slot boundary), local_pop; up to two
+/// whole stealer pops land at any atomic step of the owner's operations
+fn owner_root(depth: usize) {
+    let q: Queue<u8> = Queue::new();
+    unsafe {
+        Q = &q;
+        MAXD = depth;
+        STEAL_LEFT = 2;
+        np::HOOK = Some(hook);
+    }
+    owner_push();
+    owner_push();
+    owner_push();
+    hook();
+    owner_pop();
+    owner_push();
+    owner_push();
+    hook();
+    owner_pop();
+    unsafe {
+        kani::cover!(STEAL_LEFT == 0 && np::PREEMPTS == 2, "both steals landed inside owner operations");
+    }
+    drain_and_check();
+    std::mem::forget(q);
+}
+np_harness! { #[kani::unwind(7)] fn c04_spmc_np_owner_root_d1() { owner_root(1) } }
+np_harness! { #[kani::unwind(7)] fn c04_spmc_np_owner_root_d2() { owner_root(2) } }
+
+/// stealer root (the stalled stealer): the queue holds `k` tasks at the end of a block; one
+/// stealer pop runs with the owner's push/push/local_pop and a second stealer's whole pop landing
+/// at any of its atomic steps (stale head, CAS on bit 63, over-claim -> restore)
+fn stealer_root(depth: usize, kmin: u8, owner_ops: usize) {
+    let q: Queue<u8> = Queue::new();
+    unsafe {
+        Q = &q;
+        MAXD = depth;
+    }
+    // pre-state by real operations (no schedule points yet): 3 pushed, k of them popped
+    owner_push();
+    owner_push();
+    owner_push();
+    let k: u8 = kani::any();
+    kani::assume(k >= kmin && k <= 3);
+    let mut i = 0;
+    while i < k {
+        owner_pop();
+        i += 1;
+    }
+    unsafe {
+        STEAL_LEFT = 1;
+        OWNER_LEFT = owner_ops;
+        OWNER_POPS_LAST = owner_ops >= 3;
+        np::HOOK = Some(hook);
+    }
+    stealer_pop();
+    hook();
+    stealer_pop();
+    unsafe {
+        kani::cover!(np::PREEMPTS >= 2, "owner operations / second stealer landed inside the stealer's pop");
+        np::HOOK = None;
+        while OWNER_LEFT > 0 {
+            owner_next();
+        }
+    }
+    drain_and_check();
+    std::mem::forget(q);
+}
+np_harness! { #[kani::unwind(6)] fn c04_spmc_np_stealer_root_k3_d1() { stealer_root(1, 3, 1) } }
+np_harness! { #[kani::unwind(7)] fn c04_spmc_np_stealer_root_k2_d1() { stealer_root(1, 2, 2) } }
+np_harness! { #[kani::unwind(7)] fn c04_spmc_np_stealer_root_d1() { stealer_root(1, 0, 3) } }
+np_harness! { #[kani::unwind(7)] fn c04_spmc_np_stealer_root_d2() { stealer_root(2, 2, 2) } }
